@@ -71,7 +71,7 @@ func suiteRecompose(tier string, seed uint64, model string) *Report {
 	r := NewRng(seed)
 	n := 1500
 	if tier == "thorough" {
-		n = 20000
+		n = 80000
 	}
 	// steps that give a recomposer a history
 	mkHistory := func(r *Rng) []histStep {
